@@ -1,5 +1,6 @@
 import OH.Driver.Util
 import OH.Driver.C19
+import OH.Driver.Ev
 /-
 `ohdriver`: reads protocol lines on stdin, prints one verdict line per input line.
 Only core + OH.Model/OH.Driver imports (no Mathlib), so it links as a `lean_exe`.
@@ -9,6 +10,7 @@ open OH.Driver
 def dispatch (op : String) (args impl : List String) : String :=
   let r :=
     if op.startsWith "et." then OH.Driver.C19.handle op args impl
+    else if op.startsWith "ev." then OH.Driver.Ev.handle op args impl
     else none
   match r with
   | some v => v
@@ -18,6 +20,7 @@ def step (line : String) : String :=
   match line.trimAscii.toString.splitOn " " with
   | [] => "bad empty"
   | op :: rest =>
+    if op.startsWith "#" then "note" else
     let (args, impl) := splitArrow rest
     dispatch op args impl
 
